@@ -29,7 +29,7 @@ REQUIRED_FEATURES = ["bases:1", "bases:2", "base:variable-width", "base:fixed-wi
                      "history:output-path-reused", "bases:mixed-value-dtypes", "cli:maxres-is-a-ladder-member",
                      "set:no-derived-level", "cli:base-is-level-of-mcool", "cli:base-in-subgroup-with-root-decoy",
                      "bases:second-base-has-own-content", "set:non-derivable:below-every-base",
-                     "history:refused-request-onto-existing-mcool", "option:dtypes-empty-dict",
+                     "history:refused-request-onto-existing-mcool", "option:dtypes-empty-dict", "resolutions-arg:generator", "resolutions-arg:iterator", "cli:spec:4DN:genome>=6.4Gbp",
                      "bases:independent-2b-3b"]
 SHARD_TIMEOUT = {"quick": 1800, "thorough": 7200}
 
@@ -39,6 +39,7 @@ def plan(tier, seed):
     per = 14 if tier == "quick" else 80
     s = [{"kind": "api", "sub": i, "cases": per} for i in range(n)]
     s += [{"kind": "cli", "sub": i, "cases": 6 if tier == "quick" else 14} for i in range(4 if tier == "quick" else 16)]
+    s += [{"kind": "giant4dn", "sub": i, "cases": 1} for i in range(1 if tier == "quick" else 3)]
     return s
 
 
@@ -53,6 +54,8 @@ def run(ctx, shard):
         rng = ctx.rng("case", shard["kind"], shard["sub"], i, seedk)
         if shard["kind"] == "api":
             api_case(ctx, shard, i, rng)
+        elif shard["kind"] == "giant4dn":
+            giant_4dn_case(ctx, shard)
         else:
             cli_case(ctx, shard, i, rng)
 
@@ -278,7 +281,11 @@ def api_case(ctx, shard, i, rng):
         if rng.random() < 0.35:
             zkw["dtypes"] = {}           # "no overrides" spelled as an empty dict (what `cooler zoomify --field count` passes)
             c.feature("option:dtypes-empty-dict")
-        cooler.zoomify_cooler(base_uris if len(base_uris) > 1 else base_uris[0], out, res, chunksize=cs, nproc=nproc, **zkw)
+        rform = int(rng.integers(5))
+        res_arg = {0: res, 1: tuple(res), 2: np.array(res, dtype=np.int64) if res else res, 3: iter(list(res)),
+                   4: (r_ for r_ in list(res))}[rform]
+        c.feature("resolutions-arg:" + ["list", "tuple", "ndarray", "iterator", "generator"][rform])
+        cooler.zoomify_cooler(base_uris if len(base_uris) > 1 else base_uris[0], out, res_arg, chunksize=cs, nproc=nproc, **zkw)
         want_res = sorted(set(res) | set(bases))
         if own_base2:
             c.feature("bases:second-base-has-own-content")
@@ -410,3 +417,51 @@ def cli_case(ctx, shard, i, rng):
         verify_mcool(c, out, bt, P, symm, b, want_res, {b}, {b: (base, base_grp)}, f"cli -r {arg}")
         c.nontrivial("cli", spec, arg, b, tuple(lengths))
         ctx.sample({"cli": f"cooler zoomify -r {arg}", "base_binsize": b, "levels": want_res}, limit=8)
+
+
+def giant_4dn_case(ctx, shard):
+    """Scale boundary of the 4DN ladder: a genome of 6.4-13 Gbp at 1 kb (the progression 1000,2000,5000N is open-ended,
+    bounded only by ceil(L/256): 25 Mb - and 50 Mb from 12.8 Gbp - are members). Only the set of levels and the
+    totals are judged here (the per-level contents are decided on small inputs)."""
+    import cooler
+    import pandas as pd
+    from click.testing import CliRunner
+    from cooler.cli import cli
+
+    rng = ctx.rng("giant4dn", shard["sub"])
+    cid = f"giant4dn:{shard['sub']}"
+    if not ctx.want(cid):
+        return
+    total = int([6_500_000_000, 6_450_000_000, 12_900_000_000][shard["sub"] % 3])
+    nch = 4 if total < 8e9 else 7
+    lengths = [total // nch] * (nch - 1)
+    lengths.append(total - sum(lengths))
+    cs = pd.Series(lengths, index=[f"chr{k + 1}" for k in range(nch)])
+    d = ctx.newdir()
+    base = os.path.join(d, "base.cool")
+    with ctx.case(cid, {"genome_bp": total, "chromosomes": nch, "binsize": 1000, "spec": "4DN"}) as c:
+        bins = cooler.binnify(cs, 1000)
+        n = len(bins)
+        ii = np.sort(rng.integers(0, n - 5, size=300))
+        pix = pd.DataFrame({"bin1_id": ii, "bin2_id": ii + rng.integers(0, 5, size=300), "count": rng.integers(1, 9, size=300)})
+        pix = pix.groupby(["bin1_id", "bin2_id"], as_index=False)["count"].sum()
+        cooler.create_cooler(base, bins, pix)
+        del bins
+        out = os.path.join(d, "out.mcool")
+        r = CliRunner().invoke(cli, ["zoomify", base, "-o", out, "-r", "4DN"])
+        c.feature("cli:spec:4DN:genome>=6.4Gbp")
+        if not c.check(r.exit_code == 0, "cli-resolution-spec-rejected:4DN", f"cooler zoomify -r 4DN exit {r.exit_code}: {r.exception}"):
+            return
+        maxres = int(math.ceil(total / 256))
+        want = sorted(set([1000, 2000] + nice_seq(5000, maxres)))
+        got = sorted(int(x.rsplit("/", 1)[1]) for x in cooler.fileops.list_coolers(out))
+        c.check(got == want, "zoom-levels-listing-differs",
+                f"[cli -r 4DN, {total} bp] levels {got}, the documented progression 1000,2000,5000N up to ceil(L/256)={maxres} is {want}")
+        tot = int(pix["count"].sum())
+        for r_ in got:
+            c.check(int(cooler.Cooler(f"{out}::/resolutions/{r_}").info["sum"]) == tot, "coarse-total-not-preserved",
+                    f"level {r_}: total differs from the base's")
+        c.nontrivial("giant4dn", total)
+    for f_ in (base, os.path.join(d, "out.mcool")):
+        if os.path.exists(f_):
+            os.remove(f_)
